@@ -51,6 +51,21 @@ PROPS["C18"] = {
     "technique": "Lean 4 proof that the comparison algorithm decides a denotational SameValue relation (ℚ for numbers); model=code by differential correspondence on printed ASTs",
 }
 
+PROPS["C06"] = {
+    "lean_modules": ["Ogen.Props.C06"],
+    "suites": ["c06"],
+    "trusted_base": [
+        KERNEL, HARNESS,
+        "statements in lean/Ogen/Props/C06.lean; spec predicates Fits, inKnownClass, CorePath/CoreFlat/CoreQuery, pathWire (Ogen/ParamNeverWrong_proof, PathCoreDelivered_proof, FlatQueryCoreDelivered_proof, PathNeverWrong_proof)",
+        "model Codec.* (Ogen/UriCodecLib.lean) is hand-written from uri/*.go; tie = (a) the admission table compared with ogen.Parse+gen.NewGenerator on the whole 168-cell grid, (b) cookieEscapeChars on all 256 bytes, (c) differential run of outcome AND wire through the public uri.New*Encoder/Decoder API for every expressible configuration (also non-admitted ones, where model and code must both panic) over an adversarial value matrix and random byte strings",
+        "net/url (PathEscape/PathUnescape, Values.Encode, ParseQuery) and net/http header/cookie handling are modelled, not verified; the style-table clause is proved for the path location (path_style_table) and checked against an independent Go reference serializer (OpenAPI 3.0.3 style examples, RFC 6570 reading of label/explode=false) for all four locations",
+    ],
+    "assumptions": ["object field names are distinct (property names of one schema)", "header values travel in-process here; HTTP's OWS trimming (K4) is C01's"],
+    "level_text": "full for the model except one carve-out: no_panic for every admitted configuration and value (decoders on arbitrary wire), never_wrong_partial (a decoded value is the encoded one, except W1–W4, refuted as witnesses and recorded as known finding K1), core_delivered for all four locations, path_style_table, delimiter refusal, cookie_inverse — all for byte strings and collections of any size; model tied to the code exhaustively (admission grid, escape table) and differentially (outcome and wire)",
+    "level_note": "trusted: Lean kernel, statements/specs, hand-written model + its ties, net/url and net/http behaviour as modelled, harness. Known finding K1 (W1–W4).",
+    "technique": "Lean 4 round-trip theorems (encode → transport → decode) over a byte-level model of the uri codecs; model=code by exhaustive admission grid + differential correspondence of outcomes and wires",
+}
+
 # properties not claimed, with the reason (kept current; see DESIGN.md §7)
 NOT_CLAIMED = {
     "C10": "not applicable: determinism/race-freedom of generation lives in Go map iteration order, goroutine scheduling and the memory model; no executable model separate from the runtime can express it (DESIGN.md §7)",
